@@ -7,7 +7,7 @@ from common import Result, run_driver
 import gen
 
 PROP = "C05"
-MODULES = ["DV.Properties.C05"]
+MODULES = ["DV.Properties.C05", "DV.Properties.ConfigTie"]
 
 
 def good_messages(rng: random.Random) -> list[bytes]:
